@@ -45,9 +45,25 @@ def c_int_literal(v):
     return '(-%dLL)' % -v
 
 
-def bits_to_int(v):
+def bits_to_int(v, codec='uper'):
+    """C representation of a fixed-size BIT STRING value: UPER takes the bits
+    right-aligned in SIZE bits; OER takes the octets of the encoding (bits
+    left-aligned) as a big-endian number of value_length(2^SIZE-1) bytes."""
     data, n = v
+    if codec == 'oer':
+        width = oer_bits_width(n)
+        return int.from_bytes(data, 'big') << (8 * (width - len(data))) if n else 0
     return int.from_bytes(data, 'big') >> (8 * len(data) - n) if n else 0
+
+
+def oer_bits_width(n):
+    """utils.Generator.value_length(2**n - 1): bytes of the C integer written."""
+    return 1 if n <= 8 else 2 if n <= 16 else 3 if n <= 24 else 4 if n <= 32 else 8
+
+
+def real_bits(v, bits):
+    import struct
+    return struct.pack('>f' if bits == 32 else '>d', v).hex()
 
 
 class Slot(object):
@@ -61,9 +77,10 @@ class Slot(object):
 
 
 class Walker(object):
-    def __init__(self, spec, header):
+    def __init__(self, spec, header, codec='uper'):
         self.spec = spec
         self.h = header
+        self.codec = codec
         self.struct_of = {}      # (module, type) -> struct name
         for sname, (tn, mn) in header.type_docs.items():
             self.struct_of[(mn, tn)] = sname
@@ -86,7 +103,7 @@ class Walker(object):
         if t.kind == 'ref':
             # a type that is only a reference: the generator declares the struct of the target inline
             t = self.spec.resolve(t)
-        if t.kind in ('bool', 'int', 'enum', 'bits'):
+        if t.kind in ('bool', 'int', 'enum', 'bits', 'real'):
             m = self.member(members, 'value', sname)
             self.want_scalar(m, sname)
             return Slot('scalar', expr=prefix + 'value', ctype=m.ctype)
@@ -110,7 +127,7 @@ class Walker(object):
         if ty.kind == 'ref':
             # references to BOOLEAN / INTEGER / NULL types are declared inline (no struct of their own)
             rt = self.spec.resolve(ty)
-            if rt.kind in ('bool', 'int', 'null'):
+            if rt.kind in ('bool', 'int', 'null', 'real'):
                 ty = rt
         if ty.kind == 'null':
             if any(m.name == cname for m in members):
@@ -136,7 +153,7 @@ class Walker(object):
             if m.ctype.base != want or m.ctype.ptr:
                 raise LayoutError('%s has type %r, expected %s' % (expr, m.ctype, want))
             return self.named_slot(self.spec.index[(ty.module, ty.name)], want[7:], expr + '.')
-        if ty.kind in ('bool', 'int', 'enum', 'bits'):
+        if ty.kind in ('bool', 'int', 'enum', 'bits', 'real'):
             if m.ctype.ptr or not isinstance(m.ctype.base, str) or m.ctype.base.startswith('struct'):
                 raise LayoutError('%s is not a scalar' % expr)
             return Slot('scalar', expr=expr, ctype=m.ctype)
@@ -147,7 +164,10 @@ class Walker(object):
     # ---- static layout checks
     def check_scalar(self, t, slot):
         base = slot.ctype.base
-        if t.kind == 'bool':
+        if t.kind == 'real':
+            if base != ('float' if t.bits == 32 else 'double'):
+                raise LayoutError('%s: REAL binary%d stored as %s' % (slot.expr, t.bits, base))
+        elif t.kind == 'bool':
             if base != 'bool':
                 raise LayoutError('%s: BOOLEAN stored as %s' % (slot.expr, base))
         elif t.kind == 'int':
@@ -222,21 +242,27 @@ class Walker(object):
         out.append('{ static const uint8_t t%d[] = {%s}; memcpy(%s, t%d, %d); }' % (
             self.tmp, ','.join(str(b) for b in data), expr, self.tmp, len(data)))
 
+    def emit_real(self, out, expr, bits, v):
+        # through the bit pattern: exact for every value incl. -0.0, infinities, denormals
+        out.append('{ uint%d_t t_ = 0x%sULL; memcpy(&%s, &t_, %d); }' % (bits, real_bits(v, bits), expr, bits // 8))
+
     def fill(self, ty, slot, v, out, where):
         t = self.spec.resolve(ty)
         k = t.kind
         if k == 'null':
             return
-        if k in ('bool', 'int', 'enum', 'bits'):
+        if k in ('bool', 'int', 'enum', 'bits', 'real'):
             if slot.kind != 'scalar':
                 raise LayoutError('%s: scalar expected' % where)
             self.check_scalar(t, slot)
-            if k == 'bool':
+            if k == 'real':
+                self.emit_real(out, slot.expr, t.bits, v)
+            elif k == 'bool':
                 self.emit_scalar(out, slot.expr, 'true' if v else 'false', 1 if v else 0)
             elif k == 'int':
                 self.emit_scalar(out, slot.expr, c_int_literal(v), v)
             elif k == 'bits':
-                self.emit_scalar(out, slot.expr, c_int_literal(bits_to_int(v)), bits_to_int(v))
+                self.emit_scalar(out, slot.expr, c_int_literal(bits_to_int(v, self.codec)), bits_to_int(v, self.codec))
             else:
                 self.emit_scalar(out, slot.expr, self.enum_const(slot, dict(t.items)[v]), dict(t.items)[v])
             return
@@ -269,6 +295,16 @@ class Walker(object):
                 else:
                     mv = v[m.name]
                 self.fill(m.ty, self.member_slot(m.ty, slot.members, slot.prefix, cn), mv, out, where + '.' + m.name)
+            for m in getattr(t, 'additions', []):
+                cn = canonical(m.name)
+                pm = self.member(slot.members, 'is_%s_addition_present' % cn, slot.prefix)
+                if pm.ctype.base != 'bool':
+                    raise LayoutError('%sis_%s_addition_present is not bool' % (slot.prefix, cn))
+                self.emit_scalar(out, '%sis_%s_addition_present' % (slot.prefix, cn), 'true' if m.name in v else 'false',
+                                 1 if m.name in v else 0)
+                ms = self.member_slot(m.ty, slot.members, slot.prefix, cn)
+                if m.name in v:
+                    self.fill(m.ty, ms, v[m.name], out, where + '.' + m.name)
         elif k == 'seqof':
             ln = self.length_member(slot, t.lo, t.hi)
             if ln:
@@ -297,9 +333,12 @@ class Walker(object):
         k = t.kind
         if k == 'null':
             return
-        if k in ('bool', 'int', 'enum', 'bits'):
+        if k in ('bool', 'int', 'enum', 'bits', 'real'):
             self.check_scalar(t, slot)
-            if k == 'bool':
+            if k == 'real':
+                out.append('{ uint%d_t t_; memcpy(&t_, &%s, %d); printf("r%%0%dllx ", (unsigned long long)t_); }' % (
+                    t.bits, slot.expr, t.bits // 8, t.bits // 4))
+            elif k == 'bool':
                 out.append('printf("b%%d ", (int)%s);' % slot.expr)
             elif k == 'enum':
                 out.append('printf("e%%lld ", (long long)%s);' % slot.expr)
@@ -329,6 +368,13 @@ class Walker(object):
                     out.append('}')
                 else:
                     self.dump(m.ty, ms, out, depth)
+            for m in getattr(t, 'additions', []):
+                cn = canonical(m.name)
+                ms = self.member_slot(m.ty, slot.members, slot.prefix, cn)
+                out.append('printf("p%%d ", (int)%sis_%s_addition_present);' % (slot.prefix, cn))
+                out.append('if (%sis_%s_addition_present) {' % (slot.prefix, cn))
+                self.dump(m.ty, ms, out, depth)
+                out.append('}')
         elif k == 'seqof':
             ln = self.length_member(slot, t.lo, t.hi)
             n = ln if ln else str(t.hi)
@@ -351,6 +397,8 @@ class Walker(object):
 
 
 def check_named_bits(spec, header, walker):
+    oer = walker.codec == 'oer'
+
     """The header declares one constant per named bit; with the right-aligned
     integer representation of a BIT STRING (SIZE(n)) bit k is 1 << (n-1-k)."""
     def rec(t, prefix, path):
@@ -361,12 +409,12 @@ def check_named_bits(spec, header, walker):
                 if cname not in header.consts:
                     raise LayoutError('constant %s for named bit %s(%d) missing' % (cname, name, bit))
                 got = header.consts[cname][1]
-                want = 1 << (t.n - 1 - bit)
+                want = 1 << ((8 * oer_bits_width(t.n) - 1 - bit) if oer else (t.n - 1 - bit))
                 if got != want:
                     raise LayoutError('named bit %s(%d) of BIT STRING (SIZE(%d)): constant %s = 0x%x, the encoder '
                                       'takes the value right-aligned (bit %d is 0x%x)' % (name, bit, t.n, cname, got, bit, want))
         elif k == 'seq':
-            for m in t.members:
+            for m in t.members + getattr(t, 'additions', []):
                 rec(m.ty, prefix, path + [canonical(m.name)])
         elif k == 'seqof':
             rec(t.elem, prefix, path)
@@ -379,7 +427,7 @@ def check_named_bits(spec, header, walker):
             rec(spec.resolve(t) if t.kind == 'ref' else t, sname[:-2], [])
 
 
-def expected_tokens(spec, ty, v, out=None):
+def expected_tokens(spec, ty, v, out=None, codec='uper'):
     """The text dump() prints for value v (Python codec value form)."""
     top = out is None
     if top:
@@ -393,7 +441,9 @@ def expected_tokens(spec, ty, v, out=None):
     elif k == 'enum':
         out.append('e%d' % dict(t.items)[v])
     elif k == 'bits':
-        out.append('s%d' % bits_to_int(v))
+        out.append('s%d' % bits_to_int(v, codec))
+    elif k == 'real':
+        out.append('r' + real_bits(v, t.bits))
     elif k == 'octets':
         out.append('o%d:%s' % (len(v), bytes(v).hex()))
     elif k == 'seq':
@@ -401,19 +451,23 @@ def expected_tokens(spec, ty, v, out=None):
             if m.optional:
                 out.append('p%d' % (1 if m.name in v else 0))
                 if m.name in v:
-                    expected_tokens(spec, m.ty, v[m.name], out)
+                    expected_tokens(spec, m.ty, v[m.name], out, codec)
             elif m.has_default:
-                expected_tokens(spec, m.ty, v.get(m.name, m.default), out)
+                expected_tokens(spec, m.ty, v.get(m.name, m.default), out, codec)
             else:
-                expected_tokens(spec, m.ty, v[m.name], out)
+                expected_tokens(spec, m.ty, v[m.name], out, codec)
+        for m in getattr(t, 'additions', []):
+            out.append('p%d' % (1 if m.name in v else 0))
+            if m.name in v:
+                expected_tokens(spec, m.ty, v[m.name], out, codec)
     elif k == 'seqof':
         out.append('n%d' % len(v))
         for e in v:
-            expected_tokens(spec, t.elem, e, out)
+            expected_tokens(spec, t.elem, e, out, codec)
     elif k == 'choice':
         idx = [n for n, _ in t.alts].index(v[0])
         out.append('c%d' % idx)
-        expected_tokens(spec, t.alts[idx][1], v[1], out)
+        expected_tokens(spec, t.alts[idx][1], v[1], out, codec)
     elif k != 'null':
         raise ValueError(k)
     return ' '.join(out) if top else None
@@ -537,12 +591,12 @@ static void run_fuzz(const char *path, const struct tinfo *ts, int nt, size_t ca
 '''
 
 
-def build_driver(spec, header, header_name, cases, fuzz_cap=1 << 23):
+def build_driver(spec, header, header_name, cases, fuzz_cap=1 << 23, codec='uper'):
     """cases: [(module, type, value)].  Returns (c_text, types, expected) where
     types is the list [(module, type)] in index order and expected the list of
     expected dump texts (None for the E/S/D/T protocol is computed by the
     caller from the Python codec)."""
-    w = Walker(spec, header)
+    w = Walker(spec, header, codec)
     types = [(m, n) for m, ts in spec.modules for n, _ in ts]
     parts = [DRIVER_HEAD % dict(header=header_name)]
     for i, (m, n) in enumerate(types):
@@ -590,3 +644,6 @@ class TreeWalker(Walker):
     def emit_bytes(self, out, expr, data):
         for i, b in enumerate(data):
             out.append(('%s[%d]' % (expr, i), b))
+
+    def emit_real(self, out, expr, bits, v):
+        out.append((expr, int(real_bits(v, bits), 16)))      # the IR holds a REAL as its IEEE bit pattern
